@@ -398,6 +398,12 @@ func c04Run(t *testing.T, c *choice.Stream, r *Result, opt RunOpt, forced *c04Fo
 				names = []string{"input"}
 			}
 			sc.rec.FailAt = map[string]int{names[c.Draw("cb.name", len(names))]: 1 + c.Draw("cb.j", 3)}
+			if c.Bool("cb.exception-like", 1, 3) {
+				// the callback's own error happens to carry a server exception (say, of a
+				// query it ran on another connection): this query's stream is still cut
+				// short in the middle, and the error must not be mistaken for its end
+				sc.rec.FailWith = fmt.Errorf("lookup in callback: %w", &ch.Exception{Code: 60, Name: "DB::Exception", Message: "DB::Exception: Table default.other does not exist"})
+			}
 		case "rows_mismatch":
 			// the caller hands over input columns of unequal length: the block is refused while it is being written
 			extra := sc.inCols[len(sc.inCols)-1]
